@@ -50,13 +50,19 @@ type Cfg struct {
 	SchemeA  string `json:"scheme_a"` // basic, bearer, bearer-idtoken
 	RepoAuth bool   `json:"repo_auth"`
 	TLS      bool   `json:"tls"` // A (and its mirror/second registry) configured for TLS
+	Mirror   bool   `json:"mirror"` // A is configured with mirror M (own credentials, same content)
 }
 
 func (c Cfg) String() string {
-	return fmt.Sprintf("%s authA=%s repoAuth=%v tls=%v", c.Op, c.SchemeA, c.RepoAuth, c.TLS)
+	s := fmt.Sprintf("%s authA=%s repoAuth=%v tls=%v", c.Op, c.SchemeA, c.RepoAuth, c.TLS)
+	if c.Mirror {
+		s += " mirror=true"
+	}
+	return s
 }
 
-var ops = []string{"ping", "manifest-get", "manifest-put", "blob-get-redirect", "blob-put", "tag-list", "referrers", "mirror-read", "copy-a-to-b", "copy-external"}
+var ops = []string{"ping", "manifest-get", "manifest-put", "blob-get-redirect", "blob-put", "tag-list", "referrers", "mirror-read", "copy-a-to-b", "copy-external",
+	"manifest-head", "blob-head", "blob-put-stream", "blob-put-chunked", "blob-mount", "tag-list-paged", "referrers-paged", "tag-delete", "manifest-delete", "blob-delete"}
 
 type secret struct {
 	val   string
@@ -84,6 +90,7 @@ type world struct {
 	ntok    int
 	devs    []string
 	logBuf  bytes.Buffer
+	sched   *qsched.Sched
 }
 
 var creds = map[string][3]string{ // user, password, identity token
@@ -179,7 +186,7 @@ func role(host string) string {
 
 func (w *world) leak(key, msg string) {
 	w.leaks = append(w.leaks, msg)
-	if w.leakKey == "" {
+	if w.leakKey == "" || key < w.leakKey {
 		w.leakKey = key
 	}
 }
@@ -204,6 +211,9 @@ func (w *world) resp(req *http.Request, code int, hdr http.Header, body []byte) 
 }
 
 func (w *world) RoundTrip(req *http.Request) (*http.Response, error) {
+	if w.sched != nil {
+		w.sched.Point(qsched.KHTTP, "")
+	}
 	w.nreq++
 	if w.nreq > 300 {
 		return nil, errors.New("harness: request horizon")
@@ -383,13 +393,24 @@ func newWorld(c *explore.Ctx, cfg Cfg) *world {
 	w := &world{cfg: cfg, c: c, named: map[string]map[string]bool{}, asked: map[string]bool{}}
 	w.net = modelreg.NewNet()
 	f := modelreg.Full()
-	a := w.net.AddHost(hA, f)
+	fa := f
+	switch cfg.Op {
+	case "tag-list-paged":
+		fa.TagPage = 1
+	case "referrers-paged":
+		fa.ReferrersPage = 1
+	}
+	a := w.net.AddHost(hA, fa)
 	g1.Load(a.Repo(repo), "v1")
 	g9.Load(a.Repo(repo), "ext")
 	g13.Load(a.Repo(repo), "sub")
 	w.net.AddHost(hB, f)
-	m := w.net.AddHost(hM, f)
+	m := w.net.AddHost(hM, fa)
 	g1.Load(m.Repo(repo), "v1")
+	if cfg.Mirror {
+		g9.Load(m.Repo(repo), "ext")
+		g13.Load(m.Repo(repo), "sub")
+	}
 	e := w.net.AddHost(hExt, modelreg.Features{})
 	e.Static = map[string][]byte{}
 	for d := range g9.External {
@@ -413,8 +434,11 @@ func (w *world) client() *regclient.RegClient {
 	if w.cfg.SchemeA == "bearer-idtoken" {
 		ha.User, ha.Pass, ha.Token = "", "", creds[hA][2]
 	}
-	if w.cfg.Op == "mirror-read" {
+	if w.cfg.Op == "mirror-read" || w.cfg.Mirror {
 		ha.Mirrors = []string{hM}
+	}
+	if w.cfg.Op == "blob-put-chunked" {
+		ha.BlobChunk, ha.BlobMax = 3, 4
 	}
 	hb := config.Host{Name: hB, Hostname: hB, TLS: tls, User: creds[hB][0], Pass: creds[hB][1]}
 	hm := config.Host{Name: hM, Hostname: hM, TLS: tls, User: creds[hM][0], Pass: creds[hM][1]}
@@ -457,10 +481,42 @@ func doOp(rc *regclient.RegClient, op string) error {
 		data := []byte("new blob")
 		_, err := rc.BlobPut(ctx, rA, descriptor.Descriptor{Digest: digest.FromBytes(data), Size: int64(len(data))}, bytes.NewReader(data))
 		return err
-	case "tag-list":
-		_, err := rc.TagList(ctx, rA)
+	case "blob-put-stream":
+		// descriptor unknown: the upload takes the streaming (chunked) path
+		_, err := rc.BlobPut(ctx, rA, descriptor.Descriptor{}, bytes.NewReader([]byte("new blob, streamed")))
 		return err
-	case "referrers":
+	case "blob-put-chunked":
+		data := []byte("new blob in chunks")
+		_, err := rc.BlobPut(ctx, rA, descriptor.Descriptor{Digest: digest.FromBytes(data), Size: int64(len(data))}, bytes.NewReader(data))
+		return err
+	case "blob-mount":
+		rT, _ := ref.New(hA + "/proj/other:v1")
+		return rc.BlobMount(ctx, rA, rT, ldesc)
+	case "manifest-head":
+		_, err := rc.ManifestHead(ctx, rA)
+		return err
+	case "blob-head":
+		b, err := rc.BlobHead(ctx, rA, ldesc)
+		if err == nil {
+			b.Close()
+		}
+		return err
+	case "tag-delete":
+		return rc.TagDelete(ctx, rA)
+	case "manifest-delete":
+		return rc.ManifestDelete(ctx, rA.SetDigest(g1.Top))
+	case "blob-delete":
+		return rc.BlobDelete(ctx, rA, ldesc)
+	case "tag-list", "tag-list-paged":
+		tl, err := rc.TagList(ctx, rA)
+		if err != nil {
+			return err
+		}
+		if tags, _ := tl.GetTags(); op == "tag-list-paged" && len(tags) < 3 {
+			return fmt.Errorf("harness: paged tag list returned %v", tags)
+		}
+		return nil
+	case "referrers", "referrers-paged":
 		_, err := rc.ReferrerList(ctx, rA.SetDigest(g13.Top))
 		return err
 	case "copy-a-to-b":
@@ -485,10 +541,25 @@ func run(t *testing.T, c *explore.Ctx, cfg Cfg) *result {
 		w := newWorld(c, cfg)
 		res.w = w
 		rc := w.client()
-		res.err = doOp(rc, cfg.Op)
+		// the operation runs under the scheduler with no branching at all: request arrivals of the
+		// goroutines of a copy are granted one at a time in goroutine-creation order, so an
+		// execution is a function of the deviation choices only
+		out := qsched.Run(c, qsched.Config{Branch: map[qsched.Kind]bool{}}, map[string]func(*qsched.Sched){"op": func(s *qsched.Sched) {
+			w.sched = s
+			res.err = doOp(rc, cfg.Op)
+		}}, []string{"op"})
+		w.sched = nil
+		if out.Panic != nil {
+			res.panic = out.Panic
+		}
+		if out.Deadlock || out.Horizon {
+			res.panic = fmt.Sprintf("scheduler: deadlock=%v horizon=%v %s", out.Deadlock, out.Horizon, out.DeadlockAt)
+		}
 		w.scan("log", "", "", w.logBuf.String())
 	})
-	res.panic = other
+	if other != nil {
+		res.panic = other
+	}
 	return res
 }
 
@@ -528,7 +599,7 @@ type replay struct {
 func TestVerifC11(t *testing.T) {
 	rec := ev.New()
 	defer rec.Flush(t)
-	rec.Rule("scenario = operation {ping, manifest get/put, blob get through a redirect to a CDN host, blob put, tag list, referrers, read through a mirror, cross-registry copy, copy of an image with an external layer URL} x auth scheme of the registry {basic, bearer via its token endpoint, bearer with an identity token (POST/refresh flow)} x per-repository auth on/off x TLS configured or not; every host has its own distinctive credentials. " +
+	rec.Rule("scenario = operation {ping, manifest get/head/put/delete, blob get through a redirect to a CDN host, blob head/put (single request, streamed with unknown digest, chunked)/mount/delete, tag list (one page, three pages), tag delete, referrers (one page, paged), read through a mirror, cross-registry copy, copy of an image with an external layer URL} x registry alone / with a mirror that has its own credentials and the same content x auth scheme of the registry {basic, bearer via its token endpoint, bearer with an identity token (POST/refresh flow)} x per-repository auth on/off x TLS configured or not; every host has its own distinctive credentials. " +
 		"Per scenario every sequence of at most k deviations (k=2 quick, 3 thorough; 1 for the copies in quick): any host — registry, mirror, token endpoint, redirect target, external layer host — answers 401 at any request position with {Basic, Bearer naming its own endpoint, Bearer naming a foreign host, Bearer naming an http:// realm on itself, two challenges, malformed, none}. " +
 		"Oracle: every URL, header and body received by every host and the client's trace-level log are scanned for every secret (user, password, identity token, issued bearer and refresh tokens) raw, URL-encoded, base64 and as base64(user:pass): a secret of registry Y may appear only at Y and at a token endpoint named by a challenge Y itself sent, never over http to a host configured for TLS, never in the log. distinct_nontrivial = distinct (scenario, deviation list, requests seen)")
 	rec.Assume("credential helpers are replaced by static credentials; TLS is represented by the URL scheme")
@@ -563,6 +634,9 @@ func TestVerifC11(t *testing.T) {
 						continue
 					}
 					items = append(items, Cfg{Op: op, SchemeA: sa, RepoAuth: ra, TLS: tls})
+					if op != "mirror-read" && op != "ping" {
+						items = append(items, Cfg{Op: op, SchemeA: sa, RepoAuth: ra, TLS: tls, Mirror: true})
+					}
 				}
 			}
 		}
@@ -610,9 +684,14 @@ func TestVerifC11(t *testing.T) {
 		ex := &explore.Explorer{Bound: bound, Run: runOne, Stop: rec.Expired, DetCheckEvery: 257}
 		ex.OnExec = func(c *explore.Ctx, r explore.Result) {
 			if r.Violation != "" {
-				r2 := runOne(explore.NewCtx(c.Choices()))
-				if r2.VKey != r.VKey {
-					rec.HarnessError("violation %q of %s not reproduced", r.VKey, cfg)
+				// the copies run real goroutines outside the scheduler: the request order of one choice
+				// list can vary between runs, so a leak counts once it has been seen again on a replay
+				again := false
+				for i := 0; i < 5 && !again; i++ {
+					again = runOne(explore.NewCtx(c.Choices())).VKey == r.VKey
+				}
+				if !again {
+					rec.HarnessError("violation %q of %s not reproduced in 5 replays", r.VKey, cfg)
 					return
 				}
 				rec.Violation(r.VKey, r.Violation+"\nscenario: "+cfg.String()+"\ndeviations: "+c.Describe(), replay{cfg, explore.Trim(c.Choices())})
